@@ -481,6 +481,114 @@ theorem addFk_lenInv {d} {s s' : Schema} {c n cols p pc ix} (h : LenInv d s) (hs
   obtain ⟨_, _, _, m2m, h2⟩ := addFk_ok hs
   exact fkIndex_lenInv (commitFk_lenInv h (fkNameOf_len _ _ _ _)) h2
 
+/-! ### monotonicity: registry operations never remove or rename a column, never change its nullability, and never
+    remove or alter a foreign key or an index -/
+
+/-- the table `t` has a column `c` with NOT NULL flag `nn` -/
+def HasCol (s : Schema) (t c : Name) (nn : Bool) : Prop :=
+  ∃ col ∈ s.columns, col.table = t ∧ col.name = c ∧ col.notNull = nn
+
+/-- the table `child` has a foreign key on `cols` referencing `parentCols` of `parent` -/
+def HasFk (s : Schema) (child : Name) (cols : List Name) (parent : Name) (parentCols : List Name) : Prop :=
+  ∃ f ∈ s.fks, f.table = child ∧ f.cols = cols ∧ f.parent = parent ∧ f.parentCols = parentCols
+
+structure Mono (s s' : Schema) : Prop where
+  cols : ∀ t c nn, HasCol s t c nn → HasCol s' t c nn
+  fks : ∀ f ∈ s.fks, f ∈ s'.fks
+  idx : ∀ i ∈ s.indexes, i ∈ s'.indexes
+
+theorem Mono.refl (s : Schema) : Mono s s := ⟨fun _ _ _ h => h, fun _ h => h, fun _ h => h⟩
+theorem Mono.trans {a b c : Schema} (h1 : Mono a b) (h2 : Mono b c) : Mono a c :=
+  ⟨fun t x nn h => h2.cols t x nn (h1.cols t x nn h), fun f h => h2.fks f (h1.fks f h), fun i h => h2.idx i (h1.idx i h)⟩
+
+theorem HasFk.mono {s s' : Schema} (h : Mono s s') {c cols p pc} : HasFk s c cols p pc → HasFk s' c cols p pc := by
+  rintro ⟨f, hf, h1⟩; exact ⟨f, h.fks f hf, h1⟩
+
+theorem mono_of_same {s s' : Schema} (hc : s'.columns = s.columns) (hf : s'.fks = s.fks) (hi : s'.indexes = s.indexes) : Mono s s' := by
+  refine ⟨?_, ?_, ?_⟩
+  · rintro t c nn ⟨col, h, h1⟩; exact ⟨col, hc ▸ h, h1⟩
+  · intro f h; exact hf ▸ h
+  · intro i h; exact hi ▸ h
+
+theorem updTable_mono (s : Schema) (n : Name) (f : Table → Table) : Mono s (updTable s n f) := mono_of_same rfl rfl rfl
+theorem markM2m_mono (s : Schema) (t : Name) : Mono s (markM2m s t) := updTable_mono _ _ _
+
+theorem addTable_mono {s s' : Schema} {n src e} (hs : addTable s n src e = .ok s') : Mono s s' := by
+  unfold addTable at hs
+  split at hs; · cases hs
+  split at hs; · cases hs
+  cases hs; exact mono_of_same rfl rfl rfl
+
+theorem addEntity_mono {s s' : Schema} {t e r} (hs : addEntity s t e r = .ok s') : Mono s s' := by
+  unfold addEntity at hs
+  split at hs; · cases hs
+  split at hs; · cases hs
+  cases hs; exact updTable_mono _ _ _
+
+theorem addColumn_mono {s s' : Schema} {t n src nn} (hs : addColumn s t n src nn = .ok s') : Mono s s' ∧ HasCol s' t n nn := by
+  unfold addColumn at hs
+  split at hs; · cases hs
+  split at hs; · cases hs
+  cases hs
+  refine ⟨⟨?_, fun _ h => h, fun _ h => h⟩, ?_⟩
+  · rintro t' c nn' ⟨col, h, h1⟩; exact ⟨col, by simp [h], h1⟩
+  · exact ⟨{ table := t, name := n, src := src, notNull := nn, isPk := .no, isPkPart := false, isUnique := false }, by simp, rfl, rfl, rfl⟩
+
+theorem flagColumns_has {cs : List Column} {t cols k u} {c : Column} (h : c ∈ cs) :
+    ∃ c' ∈ flagColumns cs t cols k u, c'.table = c.table ∧ c'.name = c.name ∧ c'.notNull = c.notNull := by
+  simp only [flagColumns, List.mem_map]
+  refine ⟨_, ⟨c, h, rfl⟩, ?_⟩
+  split <;> simp
+
+theorem commitIndex_mono (s : Schema) (t nm cols isPk uniq) : Mono s (commitIndex s t nm cols isPk uniq) := by
+  refine ⟨?_, ?_, ?_⟩
+  · rintro t' c nn ⟨col, h, h1, h2, h3⟩
+    obtain ⟨c', hc', e1, e2, e3⟩ := flagColumns_has (t := t) (cols := cols) (k := isPk) (u := uniq) (by simpa using h : col ∈ (setPk s t isPk).columns)
+    exact ⟨c', by simpa [commitIndex] using hc', e1.trans h1, e2.trans h2, e3.trans h3⟩
+  · intro f h; simpa [commitIndex] using h
+  · intro i h; simp [commitIndex, h]
+
+theorem addIndex_mono {d} {s s' : Schema} {t arg cols isPk isUnique m2m}
+    (hs : addIndex d s t arg cols isPk isUnique m2m = .ok s') : Mono s s' := by
+  rcases addIndex_ok hs with rfl | ⟨_, u, rfl⟩
+  · exact Mono.refl _
+  · exact commitIndex_mono ..
+
+theorem commitFk_mono (s : Schema) (c nm cols p pc) : Mono s (commitFk s c nm cols p pc) ∧ HasFk (commitFk s c nm cols p pc) c cols p pc := by
+  refine ⟨⟨fun _ _ _ h => h, ?_, fun _ h => h⟩, ?_⟩
+  · intro f h; simp [commitFk, h]
+  · exact ⟨{ table := c, name := some nm.1, src := nm.2, cols := cols, parent := p, parentCols := pc }, by simp [commitFk], rfl, rfl, rfl, rfl⟩
+
+theorem fkIndex_mono {d} {s s' : Schema} {c cols ix m2m} (hs : fkIndex d s c cols ix m2m = .ok s') : Mono s s' := by
+  unfold fkIndex at hs
+  split at hs
+  · cases hs; exact Mono.refl _
+  · split at hs
+    · exact addIndex_mono hs
+    · cases hs; exact Mono.refl _
+
+theorem addFk_mono {d} {s s' : Schema} {c n cols p pc ix} (hs : addFk d s c n cols p pc ix = .ok s') :
+    Mono s s' ∧ HasFk s' c cols p pc := by
+  obtain ⟨_, _, _, m2m, h2⟩ := addFk_ok hs
+  have h1 := commitFk_mono s c (fkNameOf d c cols n) cols p pc
+  have h3 := fkIndex_mono h2
+  exact ⟨h1.1.trans h3, h1.2.mono h3⟩
+
+/-- at most one column of a given name per table -/
+theorem col_unique {s : Schema} (h : Inv s) {c1 : Column} (h1 : c1 ∈ s.columns) :
+    (s.columns.filter (fun c => c.table == c1.table && c.name == c1.name)).length = 1 := by
+  have hk := h.colsNodup
+  unfold colKeys at hk
+  have hcount := List.nodup_iff_count.mp hk (c1.table, c1.name)
+  rw [List.count_eq_countP, List.countP_map] at hcount
+  have hpos : 0 < List.countP ((fun x => x == (c1.table, c1.name)) ∘ fun c : Column => (c.table, c.name)) s.columns :=
+    List.countP_pos_iff.mpr ⟨c1, h1, by simp⟩
+  have : List.countP ((fun x => x == (c1.table, c1.name)) ∘ fun c : Column => (c.table, c.name)) s.columns =
+      (s.columns.filter (fun c => c.table == c1.table && c.name == c1.name)).length := by
+    rw [List.countP_eq_length_filter]
+    congr 1
+  omega
+
 /-! ### creation order -/
 
 /-- `p` is a parent table of `c` (a foreign key of `c` references `p ≠ c`) -/
